@@ -23,7 +23,7 @@ from . import strings as T
 from .sym import (SInt, SBool, Unsupported, ConcretizeError, fresh_int, fresh_bool, fresh_name,
                   s_and, s_or, s_not, s_ite, s_min, s_max, s_implies, zb, _z, mk_bool, is_sym,
                   range_constraints, same_value, _counter, reset_atoms, QForall, SQuant, SRatio)
-from .values import (CUR, VBytearray, VBytes, SSeq, SIter, SBits, SRepeat, Obj, TupObj,
+from .values import (CUR, VBytearray, VBytes, SSeq, SMutSeq, SMatrix, SIter, SBits, SRepeat, Obj, TupObj,
                      CountedList, OpaqueSeq, OpaqueElem, OpaqueIter, FieldBuf)
 
 PKG = 'segno'
@@ -201,11 +201,13 @@ class LoopSpec:
     variant(ctx) -> integer expression that must decrease and stay >= 0 (while loops)
     """
 
-    def __init__(self, inv, havoc=None, variant=None, extra_havoc_names=()):
+    def __init__(self, inv, havoc=None, variant=None, extra_havoc_names=(), pre_body=None, on_exit=None):
         self.inv = inv
         self.havoc = havoc
         self.variant = variant
         self.extra_havoc_names = tuple(extra_havoc_names)
+        self.pre_body = pre_body    # ghost statements at the start of an arbitrary iteration (lemma / definition instances)
+        self.on_exit = on_exit      # ghost statements / obligations on the exit path
 
 
 class LoopCtx:
@@ -653,12 +655,17 @@ class Interp:
         return v
 
     # ------------------------------------------------------------------ exploration
-    def explore(self, thunk, on_outcome, max_paths=20000, tag=''):
+    def explore(self, thunk, on_outcome, max_paths=None, tag=''):
         """thunk(interp) runs the function under verification; on_outcome(interp,
         kind, value) is called at the end of every path ('return' | 'raise'),
         with the path condition still loaded, and states the postconditions."""
         self.prefix = []
         n = 0
+        if max_paths is None:
+            # concrete-control tasks (cc-sym / gf-lin) have a handful of paths on the pinned code: a data dependent branch
+            # makes them blow up, which is reported as undecided after a small budget
+            be = getattr(getattr(self, 'task', None), 'backend', 'smt')
+            max_paths = 512 if be in ('cc-sym', 'gf-lin') else 20000
         while True:
             n += 1
             self.paths += 1
@@ -1047,6 +1054,31 @@ class Interp:
             e = e()
         raise PyRaise(e)
 
+    def x_With(self, s, fr):
+        """with statement (context managers): __enter__ / body / __exit__; an exception of the body is passed to __exit__
+        and suppressed iff it returns a true value"""
+        if len(s.items) != 1:
+            inner = ast.With(items=s.items[1:], body=s.body)
+            ast.copy_location(inner, s)
+            outer = ast.With(items=s.items[:1], body=[inner])
+            ast.copy_location(outer, s)
+            return self.x_With(outer, fr)
+        item = s.items[0]
+        mgr = self.eval(item.context_expr, fr)
+        enter = self.getattr(mgr, '__enter__')
+        exit_ = self.getattr(mgr, '__exit__')
+        val = self.call_function(enter, (), {})
+        if item.optional_vars is not None:
+            self.assign(item.optional_vars, val, fr)
+        try:
+            sig = self.exec_block(s.body, fr)
+        except PyRaise as pr:
+            if self.truth(self.call_function(exit_, (type(pr.exc), pr.exc, None), {})):
+                return None
+            raise
+        self.call_function(exit_, (None, None, None), {})
+        return sig
+
     def x_Try(self, s, fr):
         try:
             try:
@@ -1074,8 +1106,11 @@ class Interp:
                     return fsig
 
     def x_FunctionDef(self, s, fr):
-        if s.decorator_list:
-            raise Unsupported('decorated nested function')
+        for d in s.decorator_list:
+            # functools.wraps(f) only copies metadata onto the wrapper: modelled as the identity decorator
+            ok = isinstance(d, ast.Call) and self.eval(d.func, fr) is functools.wraps
+            if not ok:
+                raise Unsupported('decorated nested function')
         fr.locals[s.name] = self.make_closure(s, fr, fr.qualname + '.<locals>.' + s.name)
         return None
 
@@ -1112,9 +1147,6 @@ class Interp:
 
     def x_Nonlocal(self, s, fr):
         raise Unsupported('nonlocal statement')
-
-    def x_With(self, s, fr):
-        raise Unsupported('with statement')
 
     # ---- loops
     def loop_key(self, fr, node):
@@ -1219,6 +1251,13 @@ class Interp:
                 fr.locals[nme] = _Havocked(nme)
             # mutable objects rebound / mutated: spec.havoc is responsible
 
+    def _spec_inv(self, spec, ctx):
+        """invariant clauses; a contract that names a local variable the code no longer has does not attach: undecided, not a crash"""
+        try:
+            return spec.inv(ctx)
+        except KeyError as ex:
+            raise Unsupported('loop contract no longer attaches to %s: local %s does not exist' % (ctx.frame.qualname, ex))
+
     def cut_for(self, s, fr, itv, spec, key):
         tag = 'loop%d' % key[1]
         fname = key[0].split(':')[1]
@@ -1240,7 +1279,7 @@ class Interp:
             raise Unsupported('cut loop over %s' % type(itv).__name__)
         entry = dict(fr.locals)
         ctx0 = LoopCtx(self, fr, 0, entry, itv)
-        for nme, c in spec.inv(ctx0):
+        for nme, c in self._spec_inv(spec, ctx0):
             self.oblige('%s.%s.inv-establish.%s' % (fname, tag, nme), c, kind='inv-establish')
         k = self.fresh_int('k_' + tag, 0, None)
         self.assume(k <= N)
@@ -1252,10 +1291,12 @@ class Interp:
         if spec.havoc:
             spec.havoc(ctx)
         self.add_index_term(k)
-        for nme, c in spec.inv(ctx):
+        for nme, c in self._spec_inv(spec, ctx):
             self.assume(c if (is_sym(c) or isinstance(c, QForall)) else bool(c))
         if self.decide(k < N):
             self.assign(s.target, elem(k), fr)
+            if getattr(spec, 'pre_body', None):
+                spec.pre_body(ctx)
             sig = self.exec_block(s.body, fr)
             if sig is _BREAK:
                 return None
@@ -1266,10 +1307,12 @@ class Interp:
             if ab is not None:
                 for nme, c in ab(ctx1):
                     self.oblige(nme, c, kind='post')
-            for nme, c in spec.inv(ctx1):
+            for nme, c in self._spec_inv(spec, ctx1):
                 self.oblige('%s.%s.inv-preserve.%s' % (fname, tag, nme), c, kind='inv-preserve')
             raise PathEnd()
         # exit: k == N; loop variable keeps its last value (if any iteration ran)
+        if getattr(spec, 'on_exit', None):
+            spec.on_exit(ctx)
         if s.orelse:
             return self.exec_block(s.orelse, fr)
         return None
@@ -1279,29 +1322,33 @@ class Interp:
         fname = key[0].split(':')[1]
         entry = dict(fr.locals)
         ctx0 = LoopCtx(self, fr, 0, entry, None)
-        for nme, c in spec.inv(ctx0):
+        for nme, c in self._spec_inv(spec, ctx0):
             self.oblige('%s.%s.inv-establish.%s' % (fname, tag, nme), c, kind='inv-establish')
         self._havoc_locals(s.body, fr, spec)
         k = self.fresh_int('k_' + tag, 0, None)
         ctx = LoopCtx(self, fr, k, entry, None)
         if spec.havoc:
             spec.havoc(ctx)
-        for nme, c in spec.inv(ctx):
+        for nme, c in self._spec_inv(spec, ctx):
             self.assume(c if (is_sym(c) or isinstance(c, QForall)) else bool(c))
         if self.truth(self.eval(s.test, fr)):
             v0 = spec.variant(ctx) if spec.variant else None
+            if getattr(spec, 'pre_body', None):
+                spec.pre_body(ctx)
             sig = self.exec_block(s.body, fr)
             if sig is _BREAK:
                 return None
             if isinstance(sig, _Return):
                 return sig
             ctx1 = LoopCtx(self, fr, k + 1, entry, None)
-            for nme, c in spec.inv(ctx1):
+            for nme, c in self._spec_inv(spec, ctx1):
                 self.oblige('%s.%s.inv-preserve.%s' % (fname, tag, nme), c, kind='inv-preserve')
             if spec.variant:
                 v1 = spec.variant(ctx1)
                 self.oblige('%s.%s.variant' % (fname, tag), s_and(v0 >= 0, v1 < v0), kind='variant')
             raise PathEnd()
+        if getattr(spec, 'on_exit', None):
+            spec.on_exit(ctx)
         if s.orelse:
             return self.exec_block(s.orelse, fr)
         return None
@@ -1541,7 +1588,7 @@ class Interp:
             if m is None:
                 raise PyRaise(TypeError('object does not support item assignment'))
             return self.call_function(m, (obj, idx, v), {})
-        if isinstance(obj, (tuple, TupObj, bytes, str, SSeq)):
+        if isinstance(obj, (tuple, TupObj, bytes, str, SSeq)) and not isinstance(obj, SMutSeq):
             raise PyRaise(TypeError('object does not support item assignment'))
         self.note_mutation(obj)
         g = getattr(self, 'gf_guard', None)
@@ -2067,6 +2114,19 @@ def _build_models(I):
     M[sum] = m_sum
 
     def m_any(it):
+        if isinstance(it, SSeq):
+            # any(s) == not (all cells are zero): decided as a bounded universal statement
+            off = it.off
+            return not I.decide_quant(SQuant(it.length, lambda k: it.raw_abs(off + k) == 0, name='allzero'))
+        if isinstance(it, CountedImage):
+            # order-insensitive: some element with multiplicity > 0 is true
+            acc = []
+            for val, cnt, exc in it.pairs:
+                if exc is not None:
+                    raise Unsupported('any() over abstracted list whose element expression raises')
+                t = val if isinstance(val, SBool) else ((val != 0) if isinstance(val, SInt) else bool(val))
+                acc.append(s_and(cnt > 0, t))
+            return s_or(*acc) if acc else False
         vals = I.iterate(it)
         acc = []
         for v in vals:
@@ -2080,6 +2140,14 @@ def _build_models(I):
     M[any] = m_any
 
     def m_all(it):
+        if isinstance(it, CountedImage):
+            acc = []
+            for val, cnt, exc in it.pairs:
+                if exc is not None:
+                    raise Unsupported('all() over abstracted list whose element expression raises')
+                t = val if isinstance(val, SBool) else ((val != 0) if isinstance(val, SInt) else bool(val))
+                acc.append(s_or(cnt <= 0, t))
+            return s_and(*acc) if acc else True
         vals = I.iterate(it)
         acc = []
         for v in vals:
@@ -2180,7 +2248,9 @@ def _build_models(I):
         if a:
             raise Unsupported('bytearray(str, encoding)')
         if isinstance(x, SInt):
-            raise Unsupported('bytearray(symbolic length)')
+            if I.decide(x < 0):
+                raise PyRaise(ValueError('negative count'))
+            return SMutSeq(z3.K(z3.IntSort(), z3.IntVal(0)), x, 0, 0, 255, 'bytearray')
         if isinstance(x, int):
             return VBytearray([0] * x)
         if isinstance(x, (SSeq, SBits, SRepeat)):
@@ -2480,6 +2550,31 @@ def _build_method_models(I):
             raise Unsupported('bytes.find(symbolic bytes)')
         return self.find(sub, *a)
     MM[(bytes, 'find')] = bytes_find
+
+    def sseq_find(self, sub, start=0, *a):
+        """s.find(pattern[, start]) of a symbolic-length sequence with a concrete pattern: the least position
+        >= start at which the pattern occurs, -1 if there is none (axiomatised, quantifier over the skipped positions)"""
+        if a:
+            raise Unsupported('find with end')
+        pat = list(sub.items) if isinstance(sub, VBytearray) else list(sub)
+        if not pat or any(is_sym(x) for x in pat):
+            raise Unsupported('find of symbolic / empty pattern')
+        m = len(pat)
+        n = self.length
+        off = self.off
+        if isinstance(start, (SInt, int)) and (start < 0) is not False:
+            if (start < 0) is True or I.decide(start < 0):
+                raise Unsupported('find with negative start')
+
+        def match(k):
+            return s_and(*[self.raw_abs(off + k + t) == pat[t] for t in range(m)])
+        r = I.fresh_int('find', -1, None)
+        I.assume(s_or(r == -1, s_and(r >= start, r + m <= n, match(r))))
+        I.assume(QForall(lambda k: s_implies(s_and(k >= start, k + m <= n, s_or(r == -1, k < r)), s_not(match(k))), 'find_skipped'))
+        I.add_index_term(r)
+        return r
+    MM[(SSeq, 'find')] = sseq_find
+    MM[(SMutSeq, 'find')] = sseq_find
 
     def str_join(self, it):
         vals = I.iterate(it)
